@@ -702,6 +702,18 @@ Proof.
   destruct leaves; [congruence | reflexivity].
 Qed.
 
+(* ... whatever options accompany the call (probe=, adc_time, asarray, init, max_nstate, callback) *)
+Theorem reject_no_probe_any_options o fuel l leaves :
+  flatten fuel l = Some leaves -> existsb is_probe leaves = false ->
+  simulate_call_ok o fuel l = Reject ValueError.
+Proof. intros H Hp. apply (reject_no_probe fuel l leaves H Hp). Qed.
+Theorem reject_non_operator_item_any_options o l fuel : has_nonop l -> simulate_call_ok o fuel l = Reject ValueError.
+Proof. apply reject_non_operator_item. Qed.
+Theorem accept_with_probe_any_options o fuel l leaves :
+  flatten fuel l = Some leaves -> leaves <> [] -> bshapes_ok (map leaf_shape leaves) = true ->
+  existsb is_probe leaves = true -> simulate_call_ok o fuel l = Accept.
+Proof. apply accept_with_probe. Qed.
+
 Theorem reject_non_virtual_operator pre post : seq_check_ok (pre ++ false :: post) = Reject ValueError.
 Proof.
   unfold seq_check_ok. rewrite (forallb_false _ _ false); [reflexivity | apply in_elt | reflexivity].
